@@ -180,7 +180,22 @@ def _splitand(stmts):
     return out
 
 
-_BLOCK = {'guard': _guard, 'unguard': _unguard, 'retvar': _retvar, 'splitand': _splitand}
+_CV = [0]
+
+
+def _condvar(stmts):
+    """if E: ...   ->   cond_ = E ; if cond_: ...   (only for plain `if` statements that are not elif branches)"""
+    out = []
+    for s in stmts:
+        if isinstance(s, ast.If) and not isinstance(s.test, (ast.Name, ast.Constant)):
+            _CV[0] += 1
+            out.append(ast.Assign(targets=[ast.Name(id='cond_%d' % _CV[0], ctx=ast.Store())], value=s.test))
+            s.test = ast.Name(id='cond_%d' % _CV[0], ctx=ast.Load())
+        out.append(s)
+    return out
+
+
+_BLOCK = {'condvar': _condvar, 'guard': _guard, 'unguard': _unguard, 'retvar': _retvar, 'splitand': _splitand}
 
 
 def _find(tree, qual):
